@@ -92,6 +92,12 @@ impl Joypad {
   pub fn get_interrupt(&mut self) -> InterruptFlag {
     std::mem::replace(&mut self.next_interrupt, InterruptFlag::empty())
   }
+
+  /// The latched, not yet collected interrupt request
+  #[cfg(feature = "verif")]
+  pub fn verif_pending(&self) -> u8 {
+    self.next_interrupt.as_u8()
+  }
 }
 
 #[cfg(test)]
